@@ -83,14 +83,18 @@ Fixpoint text_cmp (a b : text) : comparison :=       (* sign of strcmp *)
 
 Definition digit_val (ds : text) : N := fold_left (fun a d => 10 * a + (d - 48)) ds 0.
 
+(* optional sign of strtoul: (negative, bytes consumed, rest) *)
+Definition strip_sign (r1 : text) : bool * nat * text :=
+  match r1 with
+  | 43 :: r => (false, 1%nat, r)
+  | 45 :: r => (true, 1%nat, r)
+  | _ => (false, 0%nat, r1)
+  end.
+
 (* strtoul(s, &q, 10): (value, number of bytes consumed); 0 consumed = no conversion (q == s) *)
 Definition strtoul (s : text) : N * nat :=
   let (ws, r1) := span is_space s in
-  let '(neg, sl, r2) := match r1 with
-                        | 43 :: r => (false, 1%nat, r)
-                        | 45 :: r => (true, 1%nat, r)
-                        | _ => (false, 0%nat, r1)
-                        end in
+  let '(neg, sl, r2) := strip_sign r1 in
   let (ds, _) := span is_digit r2 in
   match ds with
   | [] => (0, 0%nat)
